@@ -167,6 +167,13 @@ func runC04(c *core.Ctx) {
 	for _, k := range ScaleDocsUpTo(300, 4097) {
 		cases = append(cases, cs{"pq", [][]byte{[]byte("1"), []byte("0"), []byte(k.Query)}, k.Query})
 	}
+	for i, t := range LexFamilies() {
+		if i%2 == 0 {
+			cases = append(cases, cs{"pq", [][]byte{[]byte("1"), []byte("0"), []byte(t)}, t})
+		} else {
+			cases = append(cases, cs{"ps", [][]byte{[]byte("1"), []byte("0"), []byte("0"), []byte(t)}, t})
+		}
+	}
 	for _, q := range ConstSitesQuery() {
 		cases = append(cases, cs{"pq", [][]byte{[]byte("1"), []byte("0"), []byte(q)}, q})
 	}
